@@ -26,7 +26,8 @@ RULE = (
     "head 1/96 after a hold tail - with an optional 1/5, 1/7 or 1/9 neighbour that caps the measure) built through the "
     "public constructors with ms from the exact tempo integrator; read: SMMapSet.read of such a skeleton rendered to "
     ".sm text with the C02 renderer (tempo on measure lines 3/4, on the 1/48 grid 1/4); rate: .rate(r) of any of "
-    "them, r in {0.5,0.75,1.25,1.5,2}; convert: OsuToSM / QuaToSM of a generated osu / Quaver chart (3,4,6,7,8 "
+    "them, r in {0.5,0.75,1.25,1.5,2}; in a third of all cases the mapset was already written once before (and before "
+    "the rate change when there is one); convert: OsuToSM / QuaToSM of a generated osu / Quaver chart (3,4,6,7,8 "
     "columns, constant or measure-line tempo list from {60,75,100,120,150,187.5,200,240} bpm, integer-ms file "
     "offset = first tempo point, hits and holds on the 1/4-beat grid: every ms exact in binary). The mapset is "
     "classified from its own lists: A = every tempo point on a measure line and every measure's row LCM <= 384 "
@@ -86,6 +87,8 @@ def _rate_st():
 
 
 _io_st = st.sampled_from(["str", "str", "file"])
+#: the mapset has already been written once earlier in its history (before a rate change, when there is one)
+_prewrite_st = st.sampled_from([False, False, True])
 
 
 #: two objects of one column exactly 1/96 beat apart (the closest the quantifier allows), optionally in a crowded measure
@@ -150,6 +153,7 @@ def built_st(tier):
             pair=st.one_of(st.none(), st.none(), _pair_st),
             relabel=st.sampled_from([False, False, True]),
             order=st.sampled_from([None, None, None, "reverse", "rotate", "evens-first"]),
+            prewrite=_prewrite_st,
         )
     )
 
@@ -164,7 +168,7 @@ def read_st(tier):
             tier, mode="snap", tempo=tempo, chart_types="writable", max_charts=3, max_rows=MAX_ROWS, full_meta=True
         ).filter(_renderable)
     )
-    return st.fixed_dictionaries(dict(sk=sk, rate=_rate_st(), io=_io_st))
+    return st.fixed_dictionaries(dict(sk=sk, rate=_rate_st(), io=_io_st, prewrite=_prewrite_st))
 
 
 @st.composite
@@ -209,7 +213,7 @@ def conv_st(draw, tier):
 
 
 def convert_st(tier):
-    return st.fixed_dictionaries(dict(conv=conv_st(tier), rate=_rate_st(), io=_io_st))
+    return st.fixed_dictionaries(dict(conv=conv_st(tier), rate=_rate_st(), io=_io_st, prewrite=_prewrite_st))
 
 
 def _conv_ms(conv):
@@ -670,7 +674,12 @@ def _core(ctx, x, hist: str, rate, io: str, sk=None):
         _cmp_files(ctx, "stability-ref:", p2, p1)
 
 
-def _rated(ctx, base, rate):
+def _rated(ctx, base, rate, prewrite=False):
+    if prewrite:
+        # an earlier write is an ordinary step of a history: whatever it leaves behind in the objects must not
+        # leak into what a later write (of this mapset or of one derived from it) denotes
+        ctx.call("history:write-before", _write, base, "str")
+        ctx.label("written-before" + ("-rate" if rate else ""))
     if not rate:
         return base
     return ctx.call("history:rate", base.rate, rate)
@@ -732,9 +741,9 @@ def check_built(case, ctx):
 
         ctx.call("history:reorder", _reorder, base)
         ctx.label("rows-out-of-time-order")
-    if case["rate"]:
+    if case["rate"] or case.get("prewrite"):
         _base_domain(ctx, base, "built")
-    x = _rated(ctx, base, case["rate"])
+    x = _rated(ctx, base, case["rate"], case.get("prewrite"))
     _core(ctx, x, "built", case["rate"], case["io"], sk=sk)
 
 
@@ -746,9 +755,9 @@ def check_read(case, ctx):
     ctx.harness(bad is None, f"renderer/reference disagree: {bad}")
     ctx.label("source-tempo-mid-measure", any(F(b) % 4 != 0 for b, _ in sk["tempo"]))
     base = ctx.call("history:read", _read, text0)
-    if case["rate"]:
+    if case["rate"] or case.get("prewrite"):
         _base_domain(ctx, base, "read")
-    x = _rated(ctx, base, case["rate"])
+    x = _rated(ctx, base, case["rate"], case.get("prewrite"))
     _core(ctx, x, "read", case["rate"], case["io"])
 
 
@@ -756,9 +765,9 @@ def check_convert(case, ctx):
     conv = case["conv"]
     ctx.label("keys=%d" % conv["keys"])
     base = ctx.call("history:convert", _convert, conv)
-    if case["rate"]:
+    if case["rate"] or case.get("prewrite"):
         _base_domain(ctx, base, conv["game"])
-    x = _rated(ctx, base, case["rate"])
+    x = _rated(ctx, base, case["rate"], case.get("prewrite"))
     _core(ctx, x, conv["game"], case["rate"], case["io"])
 
 
